@@ -114,5 +114,17 @@ Theorem C17_oracle_reads_urls_as_specified :
 Proof. exact readings_spec. Qed.
 Print Assumptions C17_oracle_reads_urls_as_specified.
 
+(* ---- the name constraint: the regular expression REGENERATED from examples/oci/src/constraints/name.rs, parsed by
+        Spec/Regex.v (Print re, M: the standard denotation), denotes exactly the name grammar - every byte string ---- *)
+From WF Require Import Spec.Regex Proofs.OciRegexP.
+Print re.
+Print M.
+Print parse_anchored.
+Theorem C17_name_pattern_is_the_name_grammar :
+  exists R, match oci_name_regex with Some p => parse_anchored p | None => None end = Some R
+            /\ forall s, M R s <-> name_ok s = true.
+Proof. exact name_regex_is_name_ok. Qed.
+Print Assumptions C17_name_pattern_is_the_name_grammar.
+
 (* is end-5 registered?  (false on the pinned example: known finding K1) *)
 Eval vm_compute in end5_present.
